@@ -19,6 +19,7 @@ def run(chk, replay=None):
     progs += corelib.partial_witness_programs(chk, 60 if quick else 1500, "pw")
     progs += corelib.effect_programs()
     progs += corelib.literal_programs(chk)
+    progs += corelib.long_scope_programs(chk)
     rejected = []
     acc = corelib.check_terms(chk, progs, on_reject=lambda g, a: rejected.append((g, a)))
     for g, a in rejected:
